@@ -1,7 +1,10 @@
 //! `rt SEED N`: native round trips of a fixed family of ordinary Rust data types (derive
 //! Serialize/Deserialize) under hand-written schemas: structs, enums as unions, Option, maps, Vec,
-//! tuples on arrays, newtype structs, recursive types, borrowed &str / &[u8] pointing into the input.
-//! Values come from a small deterministic generator (boundary values first).
+//! tuples on arrays, newtype structs, recursive types, borrowed &str / &[u8] pointing into the input; an enum with a
+//! symbol called `Null` under Option / Vec / map; optional fields left out by the Serialize impl (skip_serializing_if)
+//! at every position; a union of named types that share their short name.
+//! Values come from a small deterministic generator (boundary values first). Every value is also serialized through
+//! writers that take at most k bytes per `write` call and into exact-size / too-small slices (same bytes / Err).
 
 use serde::{Deserialize, Serialize};
 use std::collections::BTreeMap;
@@ -199,6 +202,125 @@ struct Borrowed<'a> {
 }
 const BORROWED: &str = r#"{"type":"record","name":"Borrowed","fields":[{"name":"s","type":"string"},{"name":"b","type":"bytes"},{"name":"n","type":"int"},{"name":"t","type":"string"}]}"#;
 
+
+// an Avro enum with a symbol literally called `Null`, under Option, in collections and alone: the serializer's rule
+// "a unit variant called Null designates the null branch of a union" must not capture the symbol
+#[derive(Serialize, Deserialize, Debug, PartialEq, Clone)]
+enum Tri {
+	Null,
+	Yes,
+	No,
+}
+#[derive(Serialize, Deserialize, Debug, PartialEq, Clone)]
+struct Poll {
+	id: i32,
+	first: Option<Tri>,
+	all: Vec<Option<Tri>>,
+	by_key: BTreeMap<String, Option<Tri>>,
+	plain: Tri,
+	rev: Option<Tri>,
+	tail: i64,
+}
+const TRI_OPT: &str = r#"["null",{"type":"enum","name":"Tri","symbols":["Null","Yes","No"]}]"#;
+const POLL: &str = r#"{"type":"record","name":"Poll","fields":[{"name":"id","type":"int"},{"name":"first","type":["null",{"type":"enum","name":"Tri","symbols":["Null","Yes","No"]}]},{"name":"all","type":{"type":"array","items":["null","Tri"]}},{"name":"by_key","type":{"type":"map","values":["null","Tri"]}},{"name":"plain","type":"Tri"},{"name":"rev","type":["Tri","null"]},{"name":"tail","type":"long"}]}"#;
+fn tri(r: &mut Rng) -> Tri {
+	[Tri::Null, Tri::Yes, Tri::No][r.below(3) as usize].clone()
+}
+fn opt_tri(r: &mut Rng) -> Option<Tri> {
+	if r.below(4) == 0 {
+		None
+	} else {
+		Some(tri(r))
+	}
+}
+fn poll(r: &mut Rng) -> Poll {
+	Poll {
+		id: r.i32(),
+		first: opt_tri(r),
+		all: (0..r.below(6)).map(|_| opt_tri(r)).collect(),
+		by_key: (0..r.below(4)).map(|_| (r.string(), opt_tri(r))).collect(),
+		plain: tri(r),
+		rev: opt_tri(r),
+		tail: r.i64(),
+	}
+}
+
+// optional fields that the Serialize impl leaves out when they are None (skip_serializing_if), at every position
+// relative to the fields that are provided: before / between / after, one or several provided fields following
+#[derive(Serialize, Deserialize, Debug, PartialEq, Clone)]
+struct Sparse {
+	#[serde(skip_serializing_if = "Option::is_none")]
+	z: Option<i32>,
+	a: i32,
+	#[serde(skip_serializing_if = "Option::is_none")]
+	b: Option<i32>,
+	c: String,
+	d: i64,
+	#[serde(skip_serializing_if = "Option::is_none")]
+	e: Option<String>,
+	#[serde(skip_serializing_if = "Option::is_none")]
+	f: Option<i64>,
+	g: Option<i32>,
+	h: bool,
+	#[serde(skip_serializing_if = "Option::is_none")]
+	i: Option<Rect>,
+	j: Vec<i32>,
+	#[serde(skip_serializing_if = "Option::is_none")]
+	k: Option<bool>,
+}
+const SPARSE: &str = r#"{"type":"record","name":"Sparse","fields":[{"name":"z","type":["null","int"]},{"name":"a","type":"int"},{"name":"b","type":["null","int"]},{"name":"c","type":"string"},{"name":"d","type":"long"},{"name":"e","type":["string","null"]},{"name":"f","type":["null","long"]},{"name":"g","type":["null","int"]},{"name":"h","type":"boolean"},{"name":"i","type":["null",{"type":"record","name":"Rect","fields":[{"name":"w","type":"int"},{"name":"h","type":"int"}]}]},{"name":"j","type":{"type":"array","items":"int"}},{"name":"k","type":["null","boolean"]}]}"#;
+fn sparse(r: &mut Rng) -> Sparse {
+	Sparse {
+		z: if r.below(2) == 0 { None } else { Some(r.i32()) },
+		a: r.i32(),
+		b: if r.below(2) == 0 { None } else { Some(r.i32()) },
+		c: r.string(),
+		d: r.i64(),
+		e: if r.below(2) == 0 { None } else { Some(r.string()) },
+		f: if r.below(2) == 0 { None } else { Some(r.i64()) },
+		g: if r.below(2) == 0 { None } else { Some(r.i32()) },
+		h: r.below(2) == 1,
+		i: if r.below(2) == 0 { None } else { Some(Rect { w: r.i32(), h: r.i32() }) },
+		j: (0..r.below(4)).map(|_| r.i32()).collect(),
+		k: if r.below(2) == 0 { None } else { Some(r.below(2) == 1) },
+	}
+}
+
+// a union of two named types with the same short name in different namespaces, the un-namespaced one first:
+// each branch is designated by the name the deserializer reports (its full name)
+#[derive(Serialize, Deserialize, Debug, PartialEq, Clone)]
+struct Sample {
+	v: i64,
+}
+#[derive(Serialize, Deserialize, Debug, PartialEq, Clone)]
+enum Meas {
+	#[serde(rename = "Sample")]
+	Cur(Sample),
+	#[serde(rename = "old.Sample")]
+	Old(Sample),
+	#[serde(rename = "Grade")]
+	Grade(Suit),
+	#[serde(rename = "old.Grade")]
+	OldGrade(Tri),
+}
+#[derive(Serialize, Deserialize, Debug, PartialEq, Clone)]
+struct Log {
+	items: Vec<Meas>,
+	last: Meas,
+}
+const LOG: &str = r#"{"type":"record","name":"Log","fields":[{"name":"items","type":{"type":"array","items":[{"type":"record","name":"Sample","fields":[{"name":"v","type":"long"}]},{"type":"record","name":"Sample","namespace":"old","fields":[{"name":"v","type":"long"}]},{"type":"enum","name":"Grade","symbols":["Hearts","Spades","Clubs"]},{"type":"enum","name":"Grade","namespace":"old","symbols":["Null","Yes","No"]}]}},{"name":"last","type":["Sample","old.Sample","Grade","old.Grade"]}]}"#;
+fn meas(r: &mut Rng) -> Meas {
+	match r.below(4) {
+		0 => Meas::Cur(Sample { v: r.i64() }),
+		1 => Meas::Old(Sample { v: r.i64() }),
+		2 => Meas::Grade(suit(r)),
+		_ => Meas::OldGrade(tri(r)),
+	}
+}
+fn log(r: &mut Rng) -> Log {
+	Log { items: (0..r.below(5)).map(|_| meas(r)).collect(), last: meas(r) }
+}
+
 fn within(outer: &[u8], p: *const u8, len: usize) -> bool {
 	let (a, b) = (outer.as_ptr() as usize, outer.as_ptr() as usize + outer.len());
 	let q = p as usize;
@@ -228,6 +350,35 @@ where
 	if &back != v {
 		return Err(format!("{what}: reader round trip {}", show_diff(&format!("{v:?}"), &format!("{back:?}"))));
 	}
+	// the bytes do not depend on the sink: a writer taking at most k bytes per `write` call, a slice of exactly the
+	// right size; a slice that is one byte too small must give an error (never Ok with a truncated datum)
+	for k in [1usize, 2, 7] {
+		let mut w = crate::io::ScheduledWriter::new(vec![crate::io::WAns::Accept(k)], false);
+		serde_avro_fast::to_datum(v, &mut w, &mut serde_avro_fast::ser::SerializerConfig::new(schema))
+			.map_err(|e| format!("{what}: serialize {v:?} to a writer taking {k} bytes per call: {e}"))?;
+		if w.out != bytes {
+			return Err(format!("{what}: {v:?}: a writer taking {k} bytes per call received {:02x?}, a Vec {:02x?}", w.out, bytes));
+		}
+	}
+	{
+		let mut buf = vec![0u8; bytes.len()];
+		let left = {
+			let mut slice: &mut [u8] = &mut buf[..];
+			serde_avro_fast::to_datum(v, &mut slice, &mut serde_avro_fast::ser::SerializerConfig::new(schema))
+				.map_err(|e| format!("{what}: serialize {v:?} to a slice of the exact size: {e}"))?;
+			slice.len()
+		};
+		if left != 0 || buf != bytes {
+			return Err(format!("{what}: {v:?}: a slice of the exact size received {:02x?} ({left} left), a Vec {:02x?}", buf, bytes));
+		}
+		if !bytes.is_empty() {
+			let mut small = vec![0u8; bytes.len() - 1];
+			let mut slice: &mut [u8] = &mut small[..];
+			if serde_avro_fast::to_datum(v, &mut slice, &mut serde_avro_fast::ser::SerializerConfig::new(schema)).is_ok() {
+				return Err(format!("{what}: {v:?}: serializing {} bytes into a slice of {} bytes returned Ok", bytes.len(), bytes.len() - 1));
+			}
+		}
+	}
 	for k in [1usize, 3] {
 		let rd = crate::io::ChunkedReader::new(bytes.clone(), vec![k]);
 		let back: T =
@@ -245,8 +396,17 @@ pub fn run(seed: u64, n: usize) -> Result<usize, String> {
 	let nested_s: serde_avro_fast::Schema = nested_schema().parse().map_err(|e| format!("schema Nested: {e}"))?;
 	let tree_s: serde_avro_fast::Schema = TREE.parse().map_err(|e| format!("schema Tree: {e}"))?;
 	let bor_s: serde_avro_fast::Schema = BORROWED.parse().map_err(|e| format!("schema Borrowed: {e}"))?;
+	let tri_opt_s: serde_avro_fast::Schema = TRI_OPT.parse().map_err(|e| format!("schema Option<Tri>: {e}"))?;
+	let poll_s: serde_avro_fast::Schema = POLL.parse().map_err(|e| format!("schema Poll: {e}"))?;
+	let sparse_s: serde_avro_fast::Schema = SPARSE.parse().map_err(|e| format!("schema Sparse: {e}"))?;
+	let log_s: serde_avro_fast::Schema = LOG.parse().map_err(|e| format!("schema Log: {e}"))?;
 	let mut count = 0;
 	for _ in 0..n {
+		rt_owned(&tri_opt_s, &opt_tri(&mut r), "Option<Tri>")?;
+		rt_owned(&poll_s, &poll(&mut r), "Poll")?;
+		rt_owned(&sparse_s, &sparse(&mut r), "Sparse")?;
+		rt_owned(&log_s, &log(&mut r), "Log")?;
+		count += 4;
 		rt_owned(&prim_s, &prim(&mut r), "Prim")?;
 		rt_owned(&nested_s, &nested(&mut r), "Nested")?;
 		rt_owned(&tree_s, &tree(&mut r, 4), "Tree")?;
